@@ -1,5 +1,7 @@
 import Yaql.Drv.Util
 import Yaql.Model.Limits
+import Yaql.Model.Entry
+import Yaql.Drv.C10
 import Yaql.Gen.Sizes
 /-! Driver for C08: the counting generator, `limit_memory_usage`, the repetition estimates over the size
 constants of the running CPython (`Yaql.Gen.Sizes.cfg`).  (The finaliser is served by Drv/C10.) -/
@@ -46,6 +48,22 @@ def one (c : Json) : Json :=
         | [x, y] => ((asStr x).toInt?.getD 0, asNat y)
         | _ => (0, 0)
       jo [("passes", jb (limitMemory (intOf c "Q") args))]
+  | "entry" =>
+      -- a value handed over through a public entry point to a function `wrap` (identity / one-element iterator around
+      -- it) and the result handed back: {"entry": "evaluate"|"evaluate-raw"|"iface"|"stub"|"stubOn", "wrap": "id"|"iter"}
+      let e : Yaql.Entry.Entry := match jstr c "entry" with
+        | "evaluate" => .evaluate true
+        | "evaluate-raw" => .evaluate false
+        | "iface" => .ifaceExpr
+        | "stubOn" => .stubOn
+        | _ => .stub
+      let o : Yaql.Convert.Opts := { t2l := jbool c "t2l", s2l := jbool c "s2l" }
+      let v := Yaql.Drv.C10.pyOfJson (jget c "v")
+      let r := match jstr c "wrap" with
+        | "iter" => Yaql.Entry.deliver e o (jnatOpt c "N") (.seq .iter [v])          -- a lambda's value: not converted
+        | "recv" => Yaql.Entry.deliver e o (jnatOpt c "N") (e.receiver v)
+        | _ => Yaql.Entry.call e o (jnatOpt c "N") id v
+      Yaql.Drv.C10.resJ r
   | op => jerr ("bad op " ++ op)
 
 def handle (req : Json) : Json :=
